@@ -101,14 +101,15 @@ def str_create(E, st, a):      # _M_create(this, size_t& capacity, size_t old_ca
 def str_mutate(E, st, a):      # _M_mutate(this, pos, len1, const char* s, len2)
     this, pos, len1, s, len2 = a
     S = Str(E, st, this); old = S.data(); ins = E.read_bytes(st, s, len2) if len2 and s.obj != 0 else []
-    new = old[:pos] + ins + old[pos+len1:]
-    # libstdc++: always reallocates in _M_mutate
-    newcap = len(new); oc = S.cap()
+    # libstdc++: always reallocates in _M_mutate; with s == nullptr the gap of len2 bytes is left for the caller to fill
+    newcap = len(old) - len1 + len2; oc = S.cap()
     if newcap > oc and newcap < 2*oc: newcap = 2*oc
     np_ = st.alloc(newcap + 1, 'heap:str')
     if not S.is_local(): s_delete(E, st, [S.p()])
     E.store(st, this, 8, np_); E.store(st, this.add(16), 8, newcap)
-    E.write_bytes(st, np_, new); E.store(st, this.add(8), 8, len(old))   # length is set by the caller
+    E.write_bytes(st, np_, old[:pos])
+    if ins: E.write_bytes(st, np_.add(pos), ins)
+    E.write_bytes(st, np_.add(pos + len2), old[pos+len1:]); E.store(st, this.add(8), 8, len(old))   # length is set by the caller
     return None
 def str_replace(E, st, a):     # _M_replace(this, pos, len1, s, len2) -> *this
     this, pos, len1, s, len2 = a
@@ -385,6 +386,9 @@ def install(E, extra=None):
     E.extern = getattr(E, 'extern', {})
     for name, vb in VTT_VBASE.items():
         b1, b2 = _vtt(vb); E.extern[name] = b1; E.extern[name + '$fakevt'] = b2
+    def single_threaded(E_, st, name):
+        o = Obj(1, name); o.cells[0] = (1, 1); return o
+    E.extern.setdefault('__libc_single_threaded', single_threaded)      # glibc: the process has one thread (shared_ptr takes the non-atomic path)
     E.stubs.update({'_ZNSt13basic_filebufIcSt11char_traitsIcEED2Ev': s_nop, '_ZNSt13basic_filebufIcSt11char_traitsIcEED1Ev': s_nop,
                     '_ZNSt8ios_baseD2Ev': s_nop, '_ZNSt8ios_baseC2Ev': s_nop, '_ZNSt6localeD1Ev': s_nop, '_ZNSt6localeC1Ev': s_nop})
     E.stubs.update(BASIC)
